@@ -250,6 +250,27 @@ def gen_case(rng, tier):
                       'body': [g.line()], 'elifs': [], 'else': [g.line()]}]
             blocks = probe + blocks
             g.define_in_tested = True
+        if rng.random() < 0.2:
+            # repetition probe: the very same condition text evaluated before and after a #define of the symbol it tests
+            # (an outcome remembered per condition text would be stale the second time); also as #elif the second time
+            sym = rng.choice([s for s in SYMS if s not in numeric])
+            val = rng.choice([0, 1, 2, 5, 'alpha'])
+            c = rng.choice([{'lhs': ('label', sym), 'op': rng.choice(OPS), 'rhs': ('num', val) if isinstance(val, int) else ('label', val)},
+                            {'lhs': ('label', sym), 'op': '!=', 'rhs': ('num', 0), 'bare': True}])
+            first = {'b': 'chain', 'open': {'d': 'if', 'c': dict(c)}, 'body': [g.line()], 'elifs': [], 'else': [g.line()]}
+            if rng.random() < 0.5:
+                second = {'b': 'chain', 'open': {'d': 'if', 'c': dict(c)}, 'body': [g.line()], 'elifs': [], 'else': [g.line()]}
+            else:
+                second = {'b': 'chain', 'open': {'d': 'if', 'c': {'lhs': ('num', 1), 'op': '==', 'rhs': ('num', 2)}}, 'body': [g.line()],
+                          'elifs': [{'c': dict(c), 'body': [g.line()]}], 'else': [g.line()]}
+            dfn = {'b': 'define', 'name': sym, 'v': val}
+            if rng.random() < 0.3:
+                # indirectly: the tested symbol's value is another symbol, which is the one that gets (re)defined
+                via = rng.choice([s for s in SYMS if s not in numeric and s != sym])
+                blocks = [{'b': 'define', 'name': sym, 'v': via}, first, {'b': 'define', 'name': via, 'v': val}, second] + blocks
+            else:
+                blocks = [first, dfn, second] + blocks
+            g.define_in_tested = True
         if not any(b['b'] == 'chain' for b in blocks):
             blocks.append(g.chain(1, numeric, ()))
         blocks.append(g.line())
